@@ -253,38 +253,87 @@ def datesOf (terms : List (List Numeric.Byte)) : List Numeric.I64 :=
 
 /-! ## Which fields an aggregation asks for (`Fields()` of each aggregation type) -/
 
+/-! ### value sources: a field, or a filtering source over a field (search/aggregations/filter.go)
+
+The predicates are first-order so that a request can be printed and parsed. -/
+
+inductive NumPred (α : Type) where
+  | ge (t : α)        -- keep v with t ≤ v
+  | lt (t : α)        -- keep v with v < t
+deriving Repr
+
+inductive TxtPred where
+  | isIn (vs : List Term)
+  | notIn (vs : List Term)
+deriving Repr
+
+inductive DatePred where
+  | ge (t : Int)
+  | lt (t : Int)
+deriving Repr
+
+/-- `search.Field(f)` (`pred = none`) or `aggregations.FilterText/FilterNumeric/FilterDate(search.Field(f), pred)` -/
+structure Src (π : Type) where
+  field : Field
+  pred : Option π := none
+deriving Repr
+
+instance {π : Type} : Coe Field (Src π) := ⟨fun f => { field := f }⟩
+
+abbrev NSrc (α : Type) := Src (NumPred α)
+abbrev TSrc := Src TxtPred
+abbrev DSrc := Src DatePred
+
+/-- `FilteringTextSource.Values` / `FilteringNumericSource.Numbers` / `FilteringDateSource.Dates`:
+`values := f.source.X(match); for _, val := range values { if f.filter(val) { rv = append(rv, val) } }; return rv`
+with `rv` a NEW slice: a source is a function of the match and never changes it. -/
+def filterSrc {μ β : Type} (p : β → Bool) (src : μ → List β) : μ → List β := fun m => (src m).filter p
+
+def TxtPred.keep : TxtPred → Term → Bool
+  | .isIn vs => fun v => vs.contains v
+  | .notIn vs => fun v => !vs.contains v
+
+def DatePred.keep : DatePred → Int → Bool
+  | .ge t => fun v => decide (t ≤ v)
+  | .lt t => fun v => decide (v < t)
+
+def NumPred.keep {α : Type} [LT α] [LE α] [DecidableLT α] [DecidableLE α] : NumPred α → α → Bool
+  | .ge t => fun v => decide (t ≤ v)
+  | .lt t => fun v => decide (v < t)
+
 inductive Metric (α : Type) where
   | count
-  | sum (f : Field) | min (f : Field) | max (f : Field) | maxFrom (f : Field) (init : α)
-  | avg (f : Field) | wavg (f w : Field)
+  | sum (f : NSrc α) | min (f : NSrc α) | max (f : NSrc α) | maxFrom (f : NSrc α) (init : α)
+  | avg (f : NSrc α) | wavg (f w : NSrc α)
 deriving Repr
 
 /-- an aggregation nested inside the buckets of a terms / range aggregation: a metric or a sketch -/
 inductive SubAgg (α : Type) where
   | metric (m : Metric α)
-  | card (f : Field)
-  | quant (f : Field)
+  | card (f : TSrc)
+  | quant (f : NSrc α)
 deriving Repr
 
 inductive Agg (α : Type) where
   | metric (m : Metric α)
-  | card (f : Field)
-  | quant (f : Field)
-  | terms (f : Field) (size : Nat) (subs : List (SubAgg α))       -- "count" is always present
-  | ranges (f : Field) (rs : List (α × α)) (subs : List (SubAgg α))
-  | dranges (f : Field) (rs : List (Option Int × Option Int)) (subs : List (SubAgg α))
+  | card (f : TSrc)
+  | quant (f : NSrc α)
+  | terms (f : TSrc) (size : Nat) (subs : List (SubAgg α))       -- "count" is always present
+  | ranges (f : NSrc α) (rs : List (α × α)) (subs : List (SubAgg α))
+  | dranges (f : DSrc) (rs : List (Option Int × Option Int)) (subs : List (SubAgg α))
 deriving Repr
 
 /-- `SingleValueMetric.Fields` / `WeightedAvgMetric.Fields` (`countSource.Fields()` is nil) -/
 def Metric.fields {α : Type} : Metric α → List Field
   | .count => []
-  | .sum f | .min f | .max f | .maxFrom f _ | .avg f => [f]
-  | .wavg f w => [f, w]
+  | .sum f | .min f | .max f | .maxFrom f _ | .avg f => [f.field]   -- `FilteringXSource.Fields() = source.Fields()`
+  | .wavg f w => [f.field, w.field]
 
 /-- `CardinalityMetric.Fields` / `QuantilesMetric.Fields` = the source's fields -/
 def SubAgg.fields {α : Type} : SubAgg α → List Field
   | .metric m => m.fields
-  | .card f | .quant f => [f]
+  | .card f => [f.field]
+  | .quant f => [f.field]
 
 /-- Two facts about the code that decide which fields get loaded, and how often. The facts of the tree under
 check are regenerated from its source on every run (`go/extract/c16.go` → `BlugeGen.C16` →
@@ -308,16 +357,22 @@ def fixedFacts : CodeFacts := { dedupNeeded := true, rangeFieldsNested := true }
 included; `TermsAggregation.Fields` does include them. -/
 def Agg.fields {α : Type} (cf : CodeFacts) : Agg α → List Field
   | .metric m => m.fields
-  | .card f | .quant f => [f]
-  | .terms f _ subs => f :: subs.flatMap SubAgg.fields
-  | .ranges f _ subs | .dranges f _ subs =>
-    if cf.rangeFieldsNested then f :: subs.flatMap SubAgg.fields else [f]
+  | .card f => [f.field]
+  | .quant f => [f.field]
+  | .terms f _ subs => f.field :: subs.flatMap SubAgg.fields
+  | .ranges f _ subs =>
+    if cf.rangeFieldsNested then f.field :: subs.flatMap SubAgg.fields else [f.field]
+  | .dranges f _ subs =>
+    if cf.rangeFieldsNested then f.field :: subs.flatMap SubAgg.fields else [f.field]
 
 /-- the fields an aggregation READS when it consumes a match -/
 def Agg.reads {α : Type} : Agg α → List Field
   | .metric m => m.fields
-  | .card f | .quant f => [f]
-  | .terms f _ subs | .ranges f _ subs | .dranges f _ subs => f :: subs.flatMap SubAgg.fields
+  | .card f => [f.field]
+  | .quant f => [f.field]
+  | .terms f _ subs => f.field :: subs.flatMap SubAgg.fields
+  | .ranges f _ subs => f.field :: subs.flatMap SubAgg.fields
+  | .dranges f _ subs => f.field :: subs.flatMap SubAgg.fields
 
 /-- keep one occurrence of every field -/
 def dedup : List Field → List Field
@@ -554,9 +609,21 @@ inductive ARes (α S Q : Type) where
 
 variable {α S Q : Type} [Add α] [Mul α] [Div α] [OfNat α 0] [OfNat α 1] [LT α] [LE α] [DecidableLT α] [DecidableLE α]
 
-def numSrc (f : Field) : DocVals α → List α := fun d => d.num f
-def txtSrc (f : Field) : DocVals α → List Term := fun d => d.txt f
-def dateSrc (f : Field) : DocVals α → List Int := fun d => d.date f
+/-- `FieldSource.Numbers` of the field, through the filter when the source is a `FilteringNumericSource` -/
+def numSrc (s : NSrc α) : DocVals α → List α :=
+  match s.pred with
+  | none => fun d => d.num s.field
+  | some p => filterSrc p.keep fun d => d.num s.field
+/-- `FieldSource.Values`, through the filter when the source is a `FilteringTextSource` -/
+def txtSrc (s : TSrc) : DocVals α → List Term :=
+  match s.pred with
+  | none => fun d => d.txt s.field
+  | some p => filterSrc p.keep fun d => d.txt s.field
+/-- `FieldSource.Dates`, through the filter when the source is a `FilteringDateSource` -/
+def dateSrc (s : DSrc) : DocVals α → List Int :=
+  match s.pred with
+  | none => fun d => d.date s.field
+  | some p => filterSrc p.keep fun d => d.date s.field
 
 def MSt.one? : MSt α → Option α | .one v => some v | _ => none
 def MSt.two? : MSt α → Option (WAvg α) | .two w => some w | _ => none
